@@ -7,11 +7,14 @@ From Coq Require Import String.
 From Verif Require Export Bytes Textproto.
 Open Scope N_scope.
 
-Inductive ext := E8BITMIME | ESMTPUTF8 | EDSN | EENHANCED | ESTARTTLS.
+(* the extensions the code consults (Extension(...) / c.ext[...]: Gen.consulted_extensions; AUTH only with SMTP AUTH
+   configured, which this model does not do) and any other EHLO keyword *)
+Inductive ext := E8BITMIME | ESMTPUTF8 | EDSN | EENHANCED | ESTARTTLS | EOther (name : bytes).
 
 Definition ext_eqb (a b : ext) : bool :=
   match a, b with
   | E8BITMIME, E8BITMIME | ESMTPUTF8, ESMTPUTF8 | EDSN, EDSN | EENHANCED, EENHANCED | ESTARTTLS, ESTARTTLS => true
+  | EOther a, EOther b => bytes_eqb a b
   | _, _ => false
   end.
 
